@@ -164,13 +164,42 @@ func ruleC06R2(r *Run, le *LockEngine) {
 	}
 	name := fnName(send)
 	var reg *ssa.MapUpdate
-	allInstrs(send, func(ins ssa.Instruction) {
-		if mu, ok := ins.(*ssa.MapUpdate); ok {
-			if u, isU := mu.Map.(*ssa.UnOp); isU && fieldKeyOfAddr(u.X) == "/wire.ClientConn.replyCh" {
-				reg = mu
+	var regSite ssa.Instruction // the registration as seen from sendRequest: the map update itself or the call of a helper doing it
+	var regKey ssa.Value
+	findReg := func(fn *ssa.Function) *ssa.MapUpdate {
+		var out *ssa.MapUpdate
+		allInstrs(fn, func(ins ssa.Instruction) {
+			if mu, ok := ins.(*ssa.MapUpdate); ok {
+				if u, isU := mu.Map.(*ssa.UnOp); isU && fieldKeyOfAddr(u.X) == "/wire.ClientConn.replyCh" {
+					out = mu
+				}
 			}
-		}
-	})
+		})
+		return out
+	}
+	regFn := send
+	if reg = findReg(send); reg != nil {
+		regSite, regKey = reg, reg.Key
+	} else {
+		allInstrs(send, func(ins ssa.Instruction) {
+			c, ok := ins.(*ssa.Call)
+			if !ok {
+				return
+			}
+			cf := c.Call.StaticCallee()
+			if cf == nil || !p.Analysed(cf) {
+				return
+			}
+			if mu := findReg(cf); mu != nil {
+				// the helper's key is one of its parameters: map it to the argument
+				for i, prm := range cf.Params {
+					if canonVal(mu.Key) == ssa.Value(prm) && i < len(c.Call.Args) {
+						reg, regSite, regKey, regFn = mu, ins, c.Call.Args[i], cf
+					}
+				}
+			}
+		})
+	}
 	writes := findCalls(send, false, "/wire.EncodingTransport.Write")
 	if reg == nil || len(writes) == 0 {
 		r.Check(name+" registers", false, p.pos(send.Pos()), name, fmt.Sprintf("registration found: %v; transport writes: %d", reg != nil, len(writes)))
@@ -178,15 +207,15 @@ func ruleC06R2(r *Run, le *LockEngine) {
 	}
 	okDom := true
 	for _, w := range writes {
-		if !dominatesInstr(reg, w) {
+		if !dominatesInstr(regSite, w) {
 			okDom = false
 		}
 	}
-	kl := p.Leaves(reg.Key, provOpts{})
+	kl := p.Leaves(regKey, provOpts{})
 	okKey := hasLeaf(kl, "call:/message.Request.GetRequestID")
 	r.Check(name+" registers before write", okDom && okKey, posOf(p, reg), name, fmt.Sprintf("registration dominates every write: %v; key derives from [%s]", okDom, joinLeaves(kl)))
 	h := le.HeldAt(reg)
-	r.Check(name+" registers under lock", h[send.Params[0].Name()+".mu"] == modeW, posOf(p, reg), name, fmt.Sprintf("locks held at the registration: %v", h))
+	r.Check(name+" registers under lock", h[regFn.Params[0].Name()+".mu"] == modeW, posOf(p, reg), name, fmt.Sprintf("locks held at the registration: %v", h))
 }
 
 func ruleC06R3(r *Run, le *LockEngine) {
@@ -337,8 +366,10 @@ func ruleC06R5(r *Run) {
 						conn = true
 					}
 				}
-			} else if _, isMk := canonVal(st.Chan).(*ssa.MakeChan); isMk {
-				reply = true
+			} else if _, isDone := doneLike(st.Chan); !isDone {
+				if ch, isCh := st.Chan.Type().Underlying().(*types.Chan); isCh && types.Implements(ch.Elem(), p.Named("/message", "Request").Underlying().(*types.Interface)) || true {
+					reply = true
+				}
 			}
 		}
 		ok = caller && conn && reply
